@@ -57,6 +57,8 @@ type c06ACS struct {
 	Loc string `json:"loc"`
 	Idx int    `json:"idx"`
 	Def *bool  `json:"def,omitempty"`
+	// ResponseLocation attribute of the element (legal on any endpoint type, meaningless for an ACS): never a place to send an assertion to
+	RLoc string `json:"response_location,omitempty"`
 }
 
 type c06ReqAttr struct {
@@ -190,6 +192,10 @@ func c06Descriptor(i int, m *c06SP) *saml.EntityDescriptor {
 		}
 		for _, a := range d.ACS {
 			ep := saml.IndexedEndpoint{Binding: c06BindingURI(a.B), Location: a.Loc, Index: a.Idx}
+			if a.RLoc != "" {
+				rl := a.RLoc
+				ep.ResponseLocation = &rl
+			}
 			if a.Def != nil {
 				v := *a.Def
 				ep.IsDefault = &v
@@ -287,6 +293,9 @@ func c06GenSP(g *Rng, i int) c06SP {
 			e := c06ACS{B: []string{"post", "redirect", "artifact", "unknown"}[g.PickW(14, 2, 2, 1)], Loc: locs[g.PickW(4, 3, 2, 2)], Idx: perm[next]}
 			if g.Bool(0.25) {
 				e.Idx = next // many real deployments number positionally
+			}
+			if g.Bool(0.12) {
+				e.RLoc = Pick(g, "https://collector.example.net/slo-return", locs[len(locs)-1]+"/return")
 			}
 			next++
 			switch g.PickW(6, 3, 1) {
